@@ -5,6 +5,7 @@ import (
 
 	"github.com/aperturerobotics/bifrost/peer"
 	"github.com/aperturerobotics/util/promise"
+	"github.com/pkg/errors"
 )
 
 // Dialer represents a ongoing attempt to dial an address
@@ -69,5 +70,17 @@ func (d *Dialer) Execute() {
 		return
 	}
 
-	d.result.SetResult(d.t.HandleSession(ctx, rconn))
+	lnk, err := d.t.HandleSession(ctx, rconn)
+	if err == nil && d.peerID != "" && lnk.GetRemotePeer() != d.peerID {
+		// a different peer answered at this address: this is not a link to the
+		// peer we were asked to dial. close it so the address can be dialed again.
+		remotePeerID := lnk.GetRemotePeer()
+		_ = lnk.Close()
+		lnk, err = nil, errors.Errorf(
+			"dialed peer %s at %s but remote peer is %s",
+			d.peerID.String(), d.addr, remotePeerID.String(),
+		)
+		le.WithError(err).Warn("quic: dialed peer id mismatch")
+	}
+	d.result.SetResult(lnk, err)
 }
